@@ -1479,7 +1479,7 @@ def run(ctx):
     avoid = {name: any(s in ctx.known for s in sigs) for name, (sigs, _) in AVOIDANCE.items()}
     cat = catalogue() + callback_catalogue()
     items = [(c["kind"], c, avoid) for c in cat]
-    n_hist = ctx.n(4000, 40000)
+    n_hist = ctx.n(8000, 50000)
     base = ctx.seed * 10000019
     items += [("history", base + i, avoid) for i in range(n_hist)]
     results = core.pmap(work, items, chunksize=16)
